@@ -96,6 +96,10 @@ func (SlashMonitor) Post(e *Explorer, before, w *World, pre interface{}, ev *Eve
 		}
 		if !becameFunded {
 			if nd.DisputeStatus == disputetypes.Prevote && (!existed || !od.FeeTotal.Equal(nd.FeeTotal)) {
+				// ... unless it in fact received the whole fee: then it has to start (slash, jail, vote)
+				if paid := w.ModBal("dispute").Sub(p.dispBal); nd.FeeTotal.GTE(requiredFee(nd)) || (!existed && paid.GTE(requiredFee(nd)) && requiredFee(nd).IsPositive()) {
+					fail("funded-dispute-not-started", fmt.Sprintf("dispute %d holds fee %s (the dispute account received %s) of the required %s but is still in prevote", nd.DisputeId, nd.FeeTotal, paid, requiredFee(nd)))
+				}
 				// a payment that leaves the dispute unfunded: no backer of the report loses stake (the payer's own
 				// selectors excepted when the fee is taken from stake)
 				e.RC.Count("payments_leaving_unfunded", 1)
